@@ -40,7 +40,7 @@ pub fn run_check(replay: Option<Value>) -> i32 {
         dim("tol", &tols),
         dim("direction", &["forward", "backward(reflected)"]),
         dim("jacobian", &["user", "finite-difference"]),
-        dim("t_eval_shape", &["13 points incl. both ends", "3 interior points only"]),
+        dim("t_eval_shape", &["13 points incl. both ends", "3 interior points only", "every second accepted time of the plain run and a neighbour 1e-13 away"]),
         dim("first_step", &["automatic", "span/37"]),
     ];
     lattice(&mut rep, "c12", &dims, only.as_deref(), |key, idx| {
@@ -76,6 +76,25 @@ pub fn run_check(replay: Option<Value>) -> i32 {
                 viol!("outcome", format!("plain run ended with {}", plain.outcome_name()));
                 return Some(out);
             }
+        };
+        // shape 2: requested times that coincide exactly with accepted step ends (and near misses)
+        let te: Vec<f64> = if idx[5] == 2 {
+            let mut v = vec![];
+            for (k, t) in ps.t.iter().enumerate() {
+                if k % 2 == 0 && k > 0 {
+                    v.push(*t);
+                    let nb = t + 1e-13 * xend.signum() * (1.0 + t.abs());
+                    if (nb - xend) * xend.signum() < 0.0 {
+                        v.push(nb);
+                    }
+                }
+            }
+            if v.is_empty() {
+                return None;
+            }
+            v
+        } else {
+            te
         };
         out.events = plain.st.n_ode;
         let stats = |s: &Solution| (s.nfev, s.njev, s.nlu, s.nstep, s.naccpt, s.nrejct);
